@@ -404,7 +404,8 @@ def _str_parse(ex, c):
             return err(Opaque("ParseIntError"))
         return ok(bv_const(v, base_type_name(ty)))
     if base_type_name(ty) != "Ipv4Addr":
-        raise Unsupported(f"str::parse::<{ty}>")
+        # a type of the crate: its own FromStr impl, executed from MIR
+        return ex.do_call(f"<{ty} as std::str::FromStr>::from_str", [c.args[0]], c.dest_ty, 0)
     if s.ip is not None and s.plen is None:
         return ok(Adt("Ipv4Addr", None, [BV(s.ip)]))
     if s.ip is not None:
@@ -1294,6 +1295,15 @@ def _opt_unwrap_or_default2(ex, c):
     ty = (c.dest_ty or "")
     if "EdnsData" in ty or "EdnsData" in c.path:
         return Adt("EdnsData", None, [Seq([])])
+    bt = base_type_name(ty)
+    if bt == "Vec":
+        return Seq([])
+    if bt in INT_TYPES:
+        return bv_const(0, bt)
+    if bt == "bool":
+        return Bool(False)
+    if bt == "String":
+        return Str(text="")
     raise Unsupported("unwrap_or_default on None of " + ty)
 
 
